@@ -247,6 +247,75 @@ def operation_types(sl):
         observe("include-in-reporting defaults to 'not an admin operation'", op.params["include-in-reporting"] == (not t.admin_op))
 
 
+# ------------------------------------------------------------------------------------------------------------------
+# template stage (bounded, Jinja itself runs concretely): track parameters are substituted wherever the template refers to them
+# ------------------------------------------------------------------------------------------------------------------
+CONSTRUCTS = {
+    "direct": ('{{ p }}', None),
+    "default filter": ('{{ p | default(500) }}', 500),
+    "macro in the same file": ('{% macro m() %}{{ p | default(500) }}{% endmacro %}{{ m() }}', 500),
+    "macro imported without context": ('{% import "macros.j2" as mm %}{{ mm.m() }}', 500),
+    "macro imported with context": ('{% import "macros.j2" as mm with context %}{{ mm.m() }}', 500),
+    "included part": ('{% include "part.j2" %}', 500),
+    "rally.collect": ('{% import "rally.helpers" as rally with context %}{{ rally.collect(parts="parts/*.json") }}', 500),
+    "conditional": ('{% if p is defined %}{{ p }}{% else %}7{% endif %}', 7),
+    "set": ('{% set x = p | default(500) %}{{ x }}', 500),
+    "exists_set_param": ('{% import "rally.helpers" as rally %}1{{ rally.exists_set_param("bulk", p, default_value=500) }}', None),
+}
+PARTS = {"macros.j2": '{% macro m() %}{{ p | default(500) }}{% endmacro %}', "part.j2": '{{ p | default(500) }}', "parts/a.json": '{{ p | default(500) }}'}
+
+
+def template_params(sl):
+    import json
+
+    import jinja2
+
+    name = sl["construct"]
+    expr, default = CONSTRUCTS[name]
+    given = bool(fresh_bool("parameter_given"))
+    value = [0, 1, 1000, 65536][concrete(fresh_int("parameter_value", 0, 3))] if given else None
+    other = bool(fresh_bool("unrelated_parameter_given"))
+    tvars = {}
+    if given:
+        tvars["p"] = value
+    if other:
+        tvars["q"] = 3
+    # a user parameter must never override Rally's internal template variables
+    if bool(fresh_bool("user_tries_to_override_internal")):
+        tvars["glob"] = "not-a-function"
+    if name == "exists_set_param":
+        source = '{"schedule": [{"operation": {"operation-type": "bulk", "x": %s}}]}' % expr
+    else:
+        source = '{"schedule": [{"operation": {"operation-type": "bulk", "bulk-size": %s}}]}' % expr
+    internal = loader.default_internal_template_vars(glob_helper=lambda f: ["parts/a.json"] if f == "parts/*.json" else [])
+    try:
+        text = loader.render_template(source, template_vars=tvars, template_internal_vars=internal, loader=jinja2.DictLoader(PARTS))
+        doc = json.loads(text)
+        how = "ret"
+    except Exception as e:  # noqa: BLE001 - an unusable rendering is a rejection at this stage
+        how, doc, text = "reject", None, repr(e)
+    core.note("construct", name)
+    core.note("params", tvars)
+    core.note("rendered", text[:200] if isinstance(text, str) else text)
+    core.trace("given", given)
+    if name == "direct" and not given:
+        observe("a template that needs an undefined parameter does not silently load", how == "reject")
+        return
+    observe("the template renders to valid JSON", how == "ret")
+    if how != "ret":
+        return
+    op = doc["schedule"][0]["operation"]
+    if name == "exists_set_param":
+        observe("exists_set_param emits the parameter (or its default)", op == {"operation-type": "bulk", "x": 1, "bulk": value if given else 500})
+        return
+    want = value if given else default
+    observe("the loaded value is the track parameter wherever the template refers to it (else the template's default)", op["bulk-size"] == want)
+    how2, trk = _load(doc)
+    observe("the rendered specification loads", how2 == "ret")
+    if how2 == "ret":
+        observe("the loaded track carries the substituted value", trk.challenges[0].schedule[0].operation.params["bulk-size"] == want)
+
+
 READS = [loader.TrackSpecificationReader.__call__, loader.TrackSpecificationReader._create_challenges, loader.TrackSpecificationReader._get_challenge_specs,
          loader.TrackSpecificationReader.parse_parallel, loader.TrackSpecificationReader.parse_task, loader.TrackSpecificationReader.parse_operations,
          loader.TrackSpecificationReader.parse_operation, loader.TrackSpecificationReader._create_corpora, track.Task.__init__,
@@ -281,4 +350,8 @@ HARNESSES = [
             lambda tier: [{"kind": k} for k in ("operations", "corpora", "tasks-sequential", "tasks-across-parallel", "tasks-within-parallel", "tasks-default-names")],
             reads=READS, assumptions=OUT, doc="duplicate operation, corpus and task names"),
     Harness("operation_types", operation_types, "bounded-exhaustive", lambda tier: [{}], reads=READS, doc="operation type registry round trip (finite, complete)"),
+    Harness("template_params", template_params, "bounded-exhaustive", lambda tier: [{"construct": c} for c in CONSTRUCTS], reads=READS + [loader.render_template, loader.default_internal_template_vars],
+            assumptions=["Jinja2 and json run concretely on a finite family of templates (no symbolic strings): this harness only ties the rendering stage to the reader for the listed constructs"],
+            bounds={"constructs": sorted(CONSTRUCTS), "parameter": "absent / 0 / 1 / 1000 / 65536; an unrelated parameter and an attempt to override an internal variable present or not"},
+            doc="track parameters reach every place a template refers to them (direct, filters, macros with/without context, includes, rally.collect, conditionals)"),
 ]
